@@ -22,7 +22,13 @@ def _objects():
     return nss, EAS, taus_mod
 
 
+def regen():
+    import srctie
+    return srctie.regen("C07")
+
+
 def run(ctx: Ctx):
+    import srctie
     nss, EAS, taus_mod = _objects()
     from astropy import units
     from astropy.constants import R_earth, c
@@ -63,6 +69,8 @@ def run(ctx: Ctx):
                 ctx.violation("Taus.__call__", "mutates-input", "the tau stage modified the emergence-angle / energy array it was given (later stages then use the altered angles)",
                               {"version": ver, "index": kbad, "beta_before": float(betas_before[kbad]), "beta_after": float(betas[kbad])})
                 betas, loge = betas_before.copy(), loge_before.copy()
+            # the source as translated (Gen/Src/C07.lean) at Float next to the real call: arithmetic and sqrt only, so bit-identical
+            srctie.compare(ctx, "C07", "tausCall", [betas, loge, np.full(n, frac), pe, te], [tb, tl, te, se, pe], rtol=1e-15)
             lines = [f"kin {f2h(e)} {f2h(frac)}" for e in te]
             out = run_driver(lines)
             for i, o in enumerate(out):
@@ -134,6 +142,7 @@ def run(ctx: Ctx):
         ctx.violation("EAS.altDec", "mutates-input", "input array modified", {})
     out = run_driver([f"altdec {f2h(beta[i])} {f2h(bt[i])} {f2h(g[i])} {f2h(u[i])}" for i in range(m)])
     Rk = R_earth.to(units.km).value
+    srctie.compare(ctx, "C07", "altDec", [beta, bt, g, u], [alt, ln], rtol=1e-12, atol=1e-9 * Rk)
     for i, o in enumerate(out):
         a_m, l_m = h2f(o[0]), h2f(o[1])
         ctx.case(("altdec", float(beta[i]), float(u[i]), float(E[i])),
